@@ -26,6 +26,21 @@ def run(ck: Check):
                 continue
             for cfg in cfgs[:2]:
                 ex.dfs(strategy, cfg, tc, stream=strategy, max_runs=40 if quick else 300)
+    # every testcase class (an override of rmslice/copy in a subclass must behave the same): loaded files
+    loaded = {"jsstr": [b'f("ab", "cd", "K", "e", "gh");\n', b"x = 'a' + \"bc\";\n'\\x41\\u1234';\n", b'"a""b""c"'],
+              "attrs": [b'<a b="c" d e=f><g h=\'i\' j>\n', b"<x y z=1><w v u>"],
+              "symbol": [b"a;b;c{d}e;\n", b"f(x);g[1]=2;\n"], "char": [b"abcdef", b"DDBEGIN\nxyz\nDDEND\n"],
+              "line": [b"DDBEGIN\na\nb\nc\nDDEND\n"]}
+    for atom, datas in loaded.items():
+        for data in datas:
+            for strategy in ("minimize", "minimize-around", "minimize-balanced"):
+                ex.dfs(strategy, {}, None, file0=data, atom=atom, load=True, stream=f"loaded-{atom}",
+                       max_runs=40 if quick else 400)
+                for bias in (0.3, 0.7):
+                    rr = rng(f"c04-{atom}-{bias}")
+                    v = "Y" + "".join("Y" if rr.random() < bias else "N" for _ in range(400))
+                    ex.one(strategy, {"repeat": "always"}, None, data, v, atom=atom, load=True,
+                           stream=f"loaded-{atom}")
     r = rng("c04")
     for i in range(60 if quick else 600):
         k = r.randint(5, 40)
